@@ -20,6 +20,7 @@ failures, forked crashes, free-running completion threads, a delegate that resol
 import LLBuild.Lemmas.Refine.Final
 import LLBuild.Props.C01
 import LLBuild.Props.C02
+import LLBuild.Props.C07
 
 namespace LLBuild.Refine
 open LLBuild.Engine LLBuild.Engine.DSL LLBuild.EngineImpl
@@ -118,5 +119,39 @@ theorem EngineImpl_sound_C05_quiescent {rules : List RuleSpec} (hok : RulesOk ru
   obtain ⟨_, _, _, _, h⟩ := refinement_final hok ops hh
   exact ⟨h.noTasks, h.noScanQ, h.noInputQ, h.noFinQ, h.noReady, h.noFinTasks, h.noOutstanding, h.noScanning,
     h.noDeferred, h.notActive, h.iterEq, h.states⟩
+
+/-- **C07 for the transliterated engine: a real cycle is never ignored.**  If the requested key lies
+in a cyclic set of the program (every task of a key of the set always asks for the value of a key of
+the set again), then in every history and under every schedule the build's return happens after a
+cancellation, a reported cycle or a reported error — never as a silent success (F22 ghost flag as in
+C01). -/
+theorem EngineImpl_sound_C07_cycle {rules : List RuleSpec} (hok : RulesOk rules) (hwf : DSL.wf rules = true)
+    {C : Key → Prop} (hC : CyclicSet (program rules) C)
+    (ops : List Op) (key cancelAt : Nat) (sched : List SchedItem)
+    (hh : histOk (ops ++ [.build key cancelAt sched]) (opProgram rules {})) :
+    ∃ evs0 m0 evsB,
+      run (program rules) {} evs0 = some m0 ∧
+      toEvents (runBuild key cancelAt sched (runOps ops (opProgram rules {}))).trace.reverse = some evsB ∧
+      ∀ pre v post, evsB = pre ++ Event.ret v :: post →
+        ∃ m1 m2, run (program rules) m0 pre = some m1 ∧ step (program rules) m1 (.ret v) = some m2 ∧
+          (m2.pendingDropped = false → ∀ r, m1.target = some r → C r →
+            m1.cancelled = true ∨ m1.cycleSeen = true ∨ m1.errSeen = true) := by
+  obtain ⟨evs0, m0, evsB, m', _, hr0, heB, hrB⟩ := refinement_then_build hok ops key cancelAt sched hh
+  refine ⟨evs0, m0, evsB, hr0, heB, ?_⟩
+  intro pre v post hsplit
+  rw [hsplit, run_append] at hrB
+  cases h1 : run (program rules) m0 pre with
+  | none => rw [h1] at hrB; simp at hrB
+  | some m1 =>
+    rw [h1] at hrB
+    simp only [Option.bind, run] at hrB
+    cases h2 : step (program rules) m1 (.ret v) with
+    | none => rw [h2] at hrB; simp at hrB
+    | some m2 =>
+      refine ⟨m1, m2, rfl, h2, ?_⟩
+      intro hnd r ht hr
+      have hrun : run (program rules) {} (evs0 ++ pre) = some m1 := by
+        rw [run_append, hr0]; exact h1
+      exact C07_cycle_never_succeeds (DSL.program_WF hwf) hC hrun ht hr h2 hnd
 
 end LLBuild.Refine
